@@ -102,6 +102,9 @@ class Sampler(object):
         base = self.a * np.sin(lon * 3.0) + self.b * lat + self.c + np.cos(lat * 5.0 + lon)
         if self.kind == "U8":
             return np.floor((np.sin(lon * self.a) * 0.5 + 0.5) * 250.0 + 1.0).astype(np.uint8)
+        if self.kind in ("I16", "I32"):
+            top = 30000.0 if self.kind == "I16" else 2.0e9
+            return np.floor((np.sin(lon * self.a + lat * self.b) * 0.5 + 0.5) * top + 1.0).astype(np.int16 if self.kind == "I16" else np.int32)
         if self.kind == "RGBA":
             # colour with an alpha plane: alpha 0 = undefined (whatever the colour bytes say); colour bytes may be 0 in
             # defined pixels (black sky, blue ocean) and alpha may be anything from 1 to 255 there
@@ -167,14 +170,16 @@ def run_one(ch, env):
     if big:
         update, depth = True, 5
     coordsys = (ToastCoordinateSystem.ASTRONOMICAL, ToastCoordinateSystem.PLANETARY)[ch.draw(2, kind="coordsys")]
-    kind = ("F32", "F64", "RGB", "U8", "RGBA")[ch.draw(5, kind="sampler_kind")]
+    kind = ("F32", "F64", "RGB", "U8", "RGBA", "I16", "I32")[ch.draw(7, kind="sampler_kind")]
     if big:
         kind = "F32"
-    if kind == "U8" and update:
-        kind = "F32"        # 8-bit scalar samplers: clobbering mode only (integer updates keep the larger value)
+    if kind in ("U8", "I16", "I32") and update:
+        kind = "F32"        # integer scalar samplers: clobbering mode only (integer updates keep the larger value)
     view = ch.draw(3, kind="sampler_output_view")
     if kind == "U8":
         default_fmt = "npy"
+    elif kind in ("I16", "I32"):
+        default_fmt = ("npy", "fits")[ch.draw(2, kind="fmt")]
     elif kind in ("RGB", "RGBA"):
         default_fmt = ("png", "npy")[ch.draw(2, kind="fmt")]
     else:
